@@ -99,6 +99,17 @@ PROPS = {
         assumptions=["dispatch and order of writes within a reconcile; the traffic effects of the cancellation tasks are C04's"],
         explanation="rollback/supersession dispatch theorems; dispatch clause evaluated on the real reconcile's result",
     ),
+    "C17": dict(
+        engines=[dict(name="deployctl", quick=1200, thorough=60000, shard=400, trivial_tags=["no-change"])],
+        rule="seeded generator of (replicas 0..100, partition int/percent incl. 0/1/99/100%, maxSurge/maxUnavailable int/percent/absent, new ReplicaSet size and availability, 0-5 old "
+             "ReplicaSets with sizes summing to, above (surge in flight) or below (deficit) what the partition reserves, partly unavailable, new ReplicaSet created before or after the "
+             "old ones); one real syncDeployment through the hook on a fake clientset and listers; non-trivial = the model scales some ReplicaSet; distinct = distinct input JSON",
+        trusted=["hook VerifSyncDeployment (build tag verif)", "k8s fake clientset and listers stand for the API server and informer cache",
+                 "old ReplicaSets are created oldest first with increasing revisions (fixes the controller's three sort orders)"],
+        assumptions=["the new ReplicaSet exists (its creation, candidate finding F19, is not modelled)", "no scaling event (desired-replicas annotations agree with spec.replicas)",
+                     "ReplicaSet controller: unavailable pods are removed first (availability clause counts min(available, size))"],
+        explanation="two of the four clauses proved over all states; the other two and the model itself are checked against the real controller on every case",
+    ),
     "C18": dict(
         engines=[dict(name="rolloutsm", quick=1200, thorough=60000, shard=400, trivial_tags=["no-change", "status-not-written"]),
                  dict(name="brexec", quick=600, thorough=30000, shard=400, trivial_tags=["status-unchanged"])],
@@ -131,7 +142,7 @@ PROPS = {
     ),
 }
 
-HOOK_COMMITS = ["bf5febd", "cd696c4"]
+HOOK_COMMITS = ["bf5febd", "cd696c4", "9ed478c"]
 NOT_APPLICABLE = []
 
 MANIFEST_TEXT = {
@@ -198,6 +209,14 @@ MANIFEST_TEXT = {
              "is gone. Tied to the real Reconcile by the rolloutsm engine; the dispatch clause is evaluated on the real result.",
         note="The effect of each cancellation task on Services and routes (traffic really back on stable) is C04's automaton; blue-green refusal of supersession is not modelled.",
         design_ref="DESIGN.md section 9, C10"),
+    "C17": dict(
+        text="Proof (two of four clauses): for every state of a partition-style Deployment and one sync of the advanced deployment controller, the new ReplicaSet never grows beyond "
+             "max(current size, partition limit) while old pods exist and is never scaled up so that the total exceeds replicas + maxSurge. The model of reconcileNew/OldReplicaSets "
+             "(including the slice-aliasing of the scale-down order that the check discovered) is compared with the real syncDeployment on every run, and all four clause booleans "
+             "(partition, reserve for old, surge, availability budget) are evaluated on the real result.",
+        note="Partial: 'old ReplicaSets never below the partition's reserve' and the availability budget are checked on the implementation but not yet proved for the model; convergence "
+             "at full partition is not proved; ReplicaSet creation (F19) and the scaling-event branch are outside the model.",
+        design_ref="DESIGN.md section 9, C17"),
     "C18": dict(
         text="Proof: the Rollout controller drops its finalizer only when the Terminating condition already reports Completed, the BatchRelease controller only for a deleting "
              "object in phase Completed (which C11 ties to a successful Finalize). Both reconcile models are compared with the real reconcilers on deleting objects in every phase.",
